@@ -158,6 +158,49 @@ def progTags (p : Prog) : List Tag := checkEqns p.eqns (List.replicate p.nin .li
 /-- the structural linearity verdict for a program: joint tag of its outputs -/
 def check (p : Prog) : Tag := joinAll (p.outs.map (tagOf (progTags p)))
 
+/-! ### Kernel-friendly evaluation order of the same checker
+
+  `decide +kernel` reduces lazily: with `checkEqns` the tag environment `tags ++ [stepTag tags e]` stays an
+  unevaluated, growing expression (5.9 s for a 200-equation program).  `checkFast` computes the same verdict
+  (`checkFast_eq_check` in `Proofs/Jaxpr.lean`) but forces every tag to a constructor before it is consed onto a
+  reversed environment (0.5 s).  The generated obligations are stated with `checkFast`. -/
+
+/-- evaluate a tag to a constructor before continuing (the kernel reduces lazily; without this the
+    environment would be a growing unevaluated expression) -/
+def Tag.force {α : Sort _} (t : Tag) (k : Tag → α) : α :=
+  match t with
+  | .const true => k (.const true)
+  | .const false => k (.const false)
+  | .linC => k .linC
+  | .antiC => k .antiC
+  | .linR => k .linR
+  | .bad => k .bad
+
+/-- lookup in the reversed tag list (`n` = number of defined variables, newest first) -/
+def tagOfR (n : Nat) (rtags : List Tag) (i : Nat) : Tag :=
+  if i < n then (rtags[n - 1 - i]?).getD .bad else .bad
+
+def stepTagR (n : Nat) (rtags : List Tag) (e : Eqn) : Tag :=
+  if (e.params.all fun i => (tagOfR n rtags i).isConst) then
+    match e.cls, e.args.map (tagOfR n rtags) with
+    | .lit z, [] => .const z
+    | .linAll, ts => joinAll ts
+    | .bilinear, [ta, tb] => ta.bil tb
+    | .divLike, [ta, tb] => ta.div tb
+    | .realPart, [ta] => ta.re
+    | .conj, [ta] => ta.cj
+    | .nonlin, ts => if ts.all Tag.isConst then .const false else .bad
+    | _, _ => .bad
+  else .bad
+
+def checkEqnsR : List Eqn → Nat → List Tag → Nat × List Tag
+  | [], n, r => (n, r)
+  | e :: es, n, r => (stepTagR n r e).force fun t => checkEqnsR es (n + 1) (t :: r)
+
+def checkFast (p : Prog) : Tag :=
+  match checkEqnsR p.eqns p.nin (List.replicate p.nin .linC) with
+  | (n, r) => joinAll (p.outs.map (tagOfR n r))
+
 /-! ### Semantics (executable; the hypotheses on `den` are in `Scico/Proofs/Jaxpr.lean`) -/
 
 /-- interpretation of the primitives in a value domain `V`:
